@@ -1026,10 +1026,11 @@ def run(ctx: Ctx):
         ctx.count("corpus")
     # core.Rng maps adjacent seeds to the same sequence shifted by one draw; fork to decorrelate them
     rng = ctx.rng.fork(ctx.seed + 101)
+    # budgets are relative to now: waiting for the shared lake lock must not eat the generation time
     if ctx.tier == "quick":
-        generate(ctx, 1, rng, 40)
+        generate(ctx, 1, rng, ctx.elapsed() + 40)
     else:
-        generate(ctx, 20, rng, 700)
+        generate(ctx, 20, rng, ctx.elapsed() + 700)
 
 
 def search(ctx: Ctx):
